@@ -210,7 +210,7 @@ def stepA (sb : K) (k : Nat) (g : GA K) : GA K :=
 
 /-- sizes of the arrays of a state for an `m × n` problem with `p` singular values in use -/
 structure Shape (m n p : Nat) (st : GmdState K) : Prop where
-  d : st.d.size = p
+  d : p ≤ st.d.size
   z : st.z.size = p - 1
   R : st.R.size = m
   Rrow : ∀ i, i < m → (cget st.R i).size = n
@@ -223,7 +223,7 @@ structure Shape (m n p : Nat) (st : GmdState K) : Prop where
 
 /-! ## the blocks -/
 
-theorem pickM_ok (sb : K) (k p : Nat) (st : GmdState K) (hd : st.d.size = p) (hp : st.perm.size = p)
+theorem pickM_ok (sb : K) (k p : Nat) (st : GmdState K) (hd : p ≤ st.d.size) (hp : st.perm.size = p)
     (hs : st.small < p) (hl : st.large < p) (his : nget st.perm st.small < p)
     (hil : nget st.perm st.large < p) :
     pickM sb st (vget st.d k) = .ok (pickA sb k (absSt st)) := by
@@ -239,7 +239,7 @@ theorem pickM_ok (sb : K) (k p : Nat) (st : GmdState K) (hd : st.d.size = p) (hp
 theorem swapM_ok (m n p k1 i : Nat) (st : GmdState K) (sh : Shape m n p st) (hpm : p ≤ m) (hpn : p ≤ n)
     (hk1 : k1 < p) (hi : i < p) (hj : nget st.invperm k1 < p) :
     ∃ d perm invperm Q P, swapM st k1 i = .ok (d, perm, invperm, Q, P) ∧
-      d.size = p ∧ perm.size = p ∧ invperm.size = p ∧
+      p ≤ d.size ∧ perm.size = p ∧ invperm.size = p ∧
       Q.size = m ∧ (∀ j, j < m → (cget Q j).size = m) ∧ P.size = n ∧ (∀ j, j < n → (cget P j).size = n) ∧
       vget d = dswA (absSt st) k1 i ∧
       nget perm = (fun q => if i ≠ k1 ∧ q = nget st.invperm k1 then i else nget st.perm q) ∧
@@ -260,12 +260,12 @@ theorem swapM_ok (m n p k1 i : Nat) (st : GmdState K) (sh : Shape m n p st) (hpm
     refine ⟨(st.d.set! k1 (vget st.d i)).set! i (vget st.d k1), st.perm.set! (nget st.invperm k1) i,
       st.invperm.set! i (nget st.invperm k1), Q', P', ?_, ?_, ?_, ?_, ?_, ?_, ?_, ?_, ?_, ?_, ?_, ?_, ?_⟩
     · simp only [swapM, ne_eq, h, not_false_eq_true, if_true]
-      rw [idx_v _ _ (by rw [sh.d]; omega), ok_bind, idx_v _ _ (by rw [sh.d]; omega), ok_bind,
-        upd_ok _ _ _ (by rw [sh.d]; omega), ok_bind, upd_ok _ _ _ (by simp [sh.d]; omega), ok_bind,
+      rw [idx_v _ _ (by have := sh.d; omega), ok_bind, idx_v _ _ (by have := sh.d; omega), ok_bind,
+        upd_ok _ _ _ (by have := sh.d; omega), ok_bind, upd_ok _ _ _ (by have := sh.d; simp; omega), ok_bind,
         idx_n _ _ (by rw [sh.invperm]; omega), ok_bind, upd_ok _ _ _ (by rw [sh.perm]; omega), ok_bind,
         upd_ok _ _ _ (by rw [sh.invperm]; omega), ok_bind, hQ', ok_bind, hP', ok_bind]
       rfl
-    · simp [sh.d]
+    · have := sh.d; simpa using this
     · simp [sh.perm]
     · simp [sh.invperm]
     · rw [hQs, sh.Q]
@@ -285,7 +285,7 @@ theorem swapM_ok (m n p k1 i : Nat) (st : GmdState K) (sh : Shape m n p st) (hpm
         · exact sh.Pcol _ (by omega)
         · exact sh.Pcol _ hj'
     · funext q
-      rw [vget_set _ _ _ _ (by simp [sh.d]; omega), vget_set _ _ _ _ (by rw [sh.d]; omega)]
+      rw [vget_set _ _ _ _ (by have := sh.d; simp; omega), vget_set _ _ _ _ (by have := sh.d; omega)]
       simp [dswA, h, absSt]
     · funext q
       rw [nget_set _ _ _ _ (by rw [sh.perm]; omega)]
@@ -307,7 +307,7 @@ theorem swapM_ok (m n p k1 i : Nat) (st : GmdState K) (sh : Shape m n p st) (hpm
 theorem restM_ok (sb : K) (m n p k : Nat) (st : GmdState K) (large small : Nat) (flag : Bool)
     (d : Array K) (perm invperm : Array Nat) (Q P : Array (Array K))
     (sh : Shape m n p st) (hpm : p ≤ m) (hpn : p ≤ n) (hk : k + 1 < p)
-    (hd : d.size = p) (hperm : perm.size = p) (hinv : invperm.size = p)
+    (hd : p ≤ d.size) (hperm : perm.size = p) (hinv : invperm.size = p)
     (hQ : Q.size = m) (hQc : ∀ j, j < m → (cget Q j).size = m)
     (hP : P.size = n) (hPc : ∀ j, j < n → (cget P j).size = n) :
     ∃ st', restM sb k st large small flag d perm invperm Q P = .ok st' ∧ Shape m n p st' ∧
@@ -353,7 +353,7 @@ theorem restM_ok (sb : K) (m n p k : Nat) (st : GmdState K) (large small : Nat) 
     rfl
   case h2 =>
     refine ⟨⟨?_, ?_, hR2, hR2row, ?_, ?_, ?_, ?_, hperm, hinv⟩, rfl, rfl, rfl, rfl, ?_, ?_, ?_, ?_, ?_⟩
-    · simp [hd]
+    · simpa using hd
     · simp only []; rw [hz2, hz1]
     · simp only []; rw [hPs, hP]
     · intro j hj
@@ -419,7 +419,7 @@ theorem gmdStep_refines (sb : K) (m n p k : Nat) (st : GmdState K) (sh : Shape m
   obtain ⟨st', hrest, sh', e1, e2, e3, e4, wd, wz, wR, wP, wQ⟩ :=
     restM_ok sb m n p k st large small flag d perm invperm Q P sh hpm hpn hk hd hperm hinv hQ hQc hP hPc
   refine ⟨st', ?_, sh', ?_⟩
-  · rw [gmdStep_eq, idx_v _ _ (by rw [sh.d]; omega), ok_bind, hpick, ok_bind]
+  · rw [gmdStep_eq, idx_v _ _ (by have := sh.d; omega), ok_bind, hpick, ok_bind]
     simp only [hsw, ok_bind]
     exact hrest
   · apply GA.ext
